@@ -166,6 +166,142 @@ impl Out {
     }
 }
 
+
+// ------------------------------------------------------------------ structured Voronoi sweep for triangles
+//
+// The region classification of `Triangle::project_local_point_and_get_location` is a cascade of sign tests on dot / triple
+// products; each conjunct of each test is decisive only in a narrow wedge around one vertex, and several of those wedges exist
+// only when the angle at that vertex is obtuse (e.g. "behind `a` along `ab`, yet not in the Voronoi region of `a`").
+// Random triangles and random points almost never land there.  The sweep below enumerates them: for every shape class (acute,
+// right, obtuse, wide-obtuse at the first base vertex), every assignment of the base vertices to the roles `a`, `b`, `c` (6
+// permutations: the distinguished angle at each role, both orientations) and every vertex `V` with outgoing edges `e1`, `e2`, the
+// eight in-plane rays `±e1, ±e2, ±perp(e1), ±perp(e2)` from `V` are exactly the boundaries of the Voronoi cells and of the
+// half-planes tested by the code around `V`; we take those rays (ties) and one ray strictly inside each of the eight wedges
+// between angular neighbours, at several radii, and (3-D) at several heights above / below the plane.
+
+/// base triangles (2-D frame): the distinguished angle is at vertex 0 — acute, right, 135°, ~160°
+const TRI_BASE: [[[f64; 2]; 3]; 4] = [
+    [[0.0, 0.0], [4.0, 0.0], [1.0, 3.0]],
+    [[0.0, 0.0], [3.0, 0.0], [0.0, 2.0]],
+    [[0.0, 0.0], [2.0, 0.0], [-2.0, 2.0]],
+    [[0.0, 0.0], [4.0, 0.0], [-3.0, 1.0]],
+];
+/// role assignment: new vertex k = base[PERM[k]]; base vertex 0 becomes a, a, b, b, c, c (both orientations each)
+const TRI_PERMS: [[usize; 3]; 6] = [[0, 1, 2], [0, 2, 1], [1, 0, 2], [2, 0, 1], [1, 2, 0], [2, 1, 0]];
+
+fn tri_base(r: &mut Rng, lat: bool, shape: usize) -> [[f64; 2]; 3] {
+    if lat { return TRI_BASE[shape]; }
+    let (l1, l2) = (r.logu(0.5, 8.0), r.logu(0.5, 8.0));
+    let deg = std::f64::consts::PI / 180.0;
+    let c = match shape {
+        0 => { let t = r.uniform(25.0, 85.0) * deg; [l2 * t.cos(), l2 * t.sin()] }
+        1 => [0.0, l2],
+        2 => { let t = r.uniform(95.0, 150.0) * deg; [l2 * t.cos(), l2 * t.sin()] }
+        _ => { let t = r.uniform(150.0, 175.0) * deg; [l2 * t.cos(), l2 * t.sin()] }
+    };
+    [[0.0, 0.0], [l1, 0.0], c]
+}
+
+/// the 16 sweep directions around `v` (other vertices `p1`, `p2`): 8 boundary rays + 8 wedge interiors
+fn sweep_dirs(v: [f64; 2], p1: [f64; 2], p2: [f64; 2]) -> Vec<[f64; 2]> {
+    let e1 = [p1[0] - v[0], p1[1] - v[1]];
+    let e2 = [p2[0] - v[0], p2[1] - v[1]];
+    let mut rays: Vec<[f64; 2]> = Vec::new();
+    for e in [e1, e2] {
+        rays.push(e); rays.push([-e[0], -e[1]]); rays.push([-e[1], e[0]]); rays.push([e[1], -e[0]]);
+    }
+    rays.sort_by(|x, y| x[1].atan2(x[0]).partial_cmp(&y[1].atan2(y[0])).unwrap());
+    let mut out = rays.clone();
+    for i in 0..rays.len() {
+        let (x, y) = (rays[i], rays[(i + 1) % rays.len()]);
+        // normalise the longer one down by a power of two so that neither dominates (keeps lattice inputs exact)
+        let (nx, ny) = ((x[0] * x[0] + x[1] * x[1]).sqrt(), (y[0] * y[0] + y[1] * y[1]).sqrt());
+        let k = (nx / ny).log2().round();
+        let sc = (2.0f64).powf(k);
+        out.push([x[0] + y[0] * sc, x[1] + y[1] * sc]);
+    }
+    out
+}
+
+/// exact orthogonal frames (columns e1, e2, e3 of equal length) for lattice embeddings of the base plane in 3-D
+const FRAMES3: [[[f64; 3]; 3]; 5] = [
+    [[1.0, 0.0, 0.0], [0.0, 1.0, 0.0], [0.0, 0.0, 1.0]],
+    [[0.0, 0.0, 1.0], [1.0, 0.0, 0.0], [0.0, 1.0, 0.0]],
+    [[0.0, 1.0, 0.0], [0.0, 0.0, -1.0], [-1.0, 0.0, 0.0]],
+    [[0.5, 1.0, 1.0], [1.0, 0.5, -1.0], [1.0, -1.0, 0.5]],
+    [[0.75, 1.0, 0.0], [0.0, 0.0, 1.25], [1.0, -0.75, 0.0]],
+];
+const FRAMES2: [[[f64; 2]; 2]; 5] = [
+    [[1.0, 0.0], [0.0, 1.0]],
+    [[0.0, 1.0], [-1.0, 0.0]],
+    [[0.75, 1.0], [-1.0, 0.75]],
+    [[1.0, 1.0], [-1.0, 1.0]],
+    [[-1.0, 0.0], [0.0, 1.0]],
+];
+
+fn tri_sweep(o: &mut Out, r: &mut Rng, lat: bool) {
+    let mut cnt = 0usize;
+    for shape in 0..TRI_BASE.len() {
+        for perm in TRI_PERMS.iter() {
+            let base = tri_base(r, lat, shape);
+            let t = [base[perm[0]], base[perm[1]], base[perm[2]]];
+            // embeddings (one per class)
+            let f3 = *r.pick(&FRAMES3);
+            let o3 = d3::gen_v(r, true, 0.0);
+            let m3 = d3::gen_iso(r, false, 8.0);
+            let emb3 = |x: f64, y: f64, h: f64| -> d3::Point<f64> {
+                if lat { d3::Point::from(o3 + v3(f3[0][0], f3[0][1], f3[0][2]) * x + v3(f3[1][0], f3[1][1], f3[1][2]) * y + v3(f3[2][0], f3[2][1], f3[2][2]) * h) }
+                else { m3 * d3::Point::new(x, y, h) }
+            };
+            let f2 = *r.pick(&FRAMES2);
+            let o2 = d2::gen_v(r, true, 0.0);
+            let m2 = d2::gen_iso(r, false, 8.0);
+            let emb2 = |x: f64, y: f64| -> d2::Point<f64> {
+                if lat { d2::Point::from(o2 + v2(f2[0][0], f2[0][1]) * x + v2(f2[1][0], f2[1][1]) * y) }
+                else { m2 * d2::Point::new(x, y) }
+            };
+            let s3 = format!("{} {} {}", d3::hp(&emb3(t[0][0], t[0][1], 0.0)), d3::hp(&emb3(t[1][0], t[1][1], 0.0)), d3::hp(&emb3(t[2][0], t[2][1], 0.0)));
+            let s2 = format!("{} {} {}", d2::hp(&emb2(t[0][0], t[0][1])), d2::hp(&emb2(t[1][0], t[1][1])), d2::hp(&emb2(t[2][0], t[2][1])));
+            for vi in 0..3 {
+                let v = t[vi];
+                for d in sweep_dirs(v, t[(vi + 1) % 3], t[(vi + 2) % 3]) {
+                    cnt += 1;
+                    let so = if cnt % 2 == 0 { "1" } else { "0" };
+                    // ---- 3-D
+                    let rho = if lat { *r.pick(&[0.25, 0.5, 1.0, 2.0]) } else { r.logu(0.05, 4.0) };
+                    let h = if lat { *r.pick(&[0.0, 0.0, 0.5, -1.0, 2.0]) } else if r.below(3) == 0 { 0.0 } else { r.uniform(-3.0, 3.0) };
+                    let p3 = emb3(v[0] + d[0] * rho, v[1] + d[1] * rho, h);
+                    o.v.push(("tri3_loc".into(), format!("{} {} {}", s3, d3::hp(&p3), so)));
+                    if cnt % 3 == 0 {
+                        match r.below(5) {
+                            0 => o.v.push(("tri3_proj".into(), format!("{} {} {}", s3, d3::hp(&p3), so))),
+                            1 => o.v.push(("tri3_dist".into(), format!("{} {} {}", s3, d3::hp(&p3), so))),
+                            2 => o.v.push(("tri3_cont".into(), format!("{} {}", s3, d3::hp(&p3)))),
+                            3 => o.v.push(("tri3_feat".into(), format!("{} {}", s3, d3::hp(&p3)))),
+                            _ => { let m = d3::gen_iso(r, lat, 100.0);
+                                   o.v.push(("tri3_wproj".into(), format!("{} {} {} {}", s3, d3::hiso(&m), d3::hp(&(m * p3)), so))) }
+                        }
+                    }
+                    // ---- 2-D
+                    let rho = if lat { *r.pick(&[0.25, 0.5, 1.0, 2.0]) } else { r.logu(0.05, 4.0) };
+                    let p2 = emb2(v[0] + d[0] * rho, v[1] + d[1] * rho);
+                    o.v.push(("tri2_loc".into(), format!("{} {} {}", s2, d2::hp(&p2), so)));
+                    if cnt % 3 == 1 {
+                        match r.below(5) {
+                            0 => o.v.push(("tri2_proj".into(), format!("{} {} {}", s2, d2::hp(&p2), so))),
+                            1 => o.v.push(("tri2_dist".into(), format!("{} {} {}", s2, d2::hp(&p2), so))),
+                            2 => o.v.push(("tri2_cont".into(), format!("{} {}", s2, d2::hp(&p2)))),
+                            3 => o.v.push(("tri2_feat".into(), format!("{} {}", s2, d2::hp(&p2)))),
+                            _ => { let m = d2::gen_iso(r, lat, 100.0);
+                                   o.v.push(("tri2_wproj".into(), format!("{} {} {} {}", s2, d2::hiso(&m), d2::hp(&(m * p2)), so))) }
+                        }
+                    }
+                }
+            }
+        }
+    }
+}
+
 fn mul(r: &mut Rng) -> f64 { *r.pick(&MUL) }
 
 pub fn gen(r: &mut Rng, thorough: bool) -> Vec<(String, String)> {
@@ -330,6 +466,11 @@ pub fn gen(r: &mut Rng, thorough: bool) -> Vec<(String, String)> {
             o.v.push(("tet_dist".into(), format!("{} {} {}", sargs, d3::hp(&p), if r.bool() { "1" } else { "0" })));
             o.v.push(("tet_feat".into(), format!("{} {}", sargs, d3::hp(&p))));
         }
+    }
+    // ---- structured Voronoi sweep (triangles): one lattice + one random pass (quick), ten of each (thorough)
+    for _ in 0..(if thorough { 10 } else { 1 }) {
+        tri_sweep(&mut o, r, true);
+        tri_sweep(&mut o, r, false);
     }
     o.v
 }
